@@ -9,10 +9,11 @@ import Driver.OpsSearch
 import Driver.OpsJT
 import Driver.OpsIndep
 import Driver.OpsPC
+import Driver.OpsDBN
 open Lean PgmVerif PgmVerif.Drv
 
 def handlers : List (String → Json → Option (Except String Json)) :=
-  [handleFactor, handleCPD, handleGraph, handleHistory, handleLearn, handleScore, handleSearch, handleJT, handleIndep, handlePC]
+  [handleFactor, handleCPD, handleGraph, handleHistory, handleLearn, handleScore, handleSearch, handleJT, handleIndep, handlePC, handleDBN]
 
 def handle (op : String) (j : Json) : Except String Json :=
   match handlers.findSome? (fun h => h op j) with
